@@ -4,6 +4,7 @@ package main
 // vacuity guards, known findings, VIOLATION lines, evidence.
 
 import (
+	"os/exec"
 	"encoding/json"
 	"flag"
 	"fmt"
@@ -174,7 +175,7 @@ func cmdCheck(args []string) int {
 	// lemmas serving the property
 	lem := P.lemmaObligationsFor(*prop, usedLemmaSet)
 	obls = append(obls, lem...)
-	workers := 3
+	workers := 6
 	solveAll(P, obls, timeout, all, workers)
 	// inconclusive answers (solver timeouts under load) are retried one at a time with a longer budget;
 	// an unsat answer is a proof whenever it arrives, a sat answer is never overridden
@@ -428,6 +429,10 @@ func cmdCheck(args []string) int {
 		"samples":                  samples,
 		"explanation":              "each obligation is one SMT query (negated goal) generated from /repo's current SSA for one path segment of a function under contract; 'obligations' counts queries excluding known findings",
 	}
+	if *tier == "thorough" && violations == 0 {
+		// sensitivity of this check: the must-fail mutants that touch functions of this property (never affects the exit code)
+		cov["mutation_sensitivity"] = mutationSensitivity(*repo, *verif, keys)
+	}
 	ev := map[string]interface{}{
 		"property_id": *prop, "tier": *tier, "seed": seed, "level": "proof", "coverage": cov,
 		"assumptions": assumptions, "wall_s": time.Since(t0).Seconds(), "violations": violations,
@@ -501,3 +506,89 @@ func modelInputs(model string) map[string]string {
 	return res
 }
 
+
+// mutationSensitivity applies each single-line mutant of selftest/mutants.txt whose target functions are among the
+// functions of this property to a scratch copy of the repository and re-verifies those functions there.
+func mutationSensitivity(repo, verif string, keys []string) map[string]interface{} {
+	inProp := map[string]bool{}
+	for _, k := range keys {
+		inProp[k] = true
+		inProp[strings.TrimPrefix(k, ":")] = true
+	}
+	data, err := os.ReadFile(filepath.Join(verif, "selftest", "mutants.txt"))
+	if err != nil {
+		return map[string]interface{}{"error": err.Error()}
+	}
+	var killed, survived, skipped []string
+	for _, ln := range strings.Split(string(data), "\n") {
+		parts := strings.Split(ln, "@@")
+		if len(parts) != 4 || strings.HasPrefix(ln, "#") || parts[3] == "" {
+			continue
+		}
+		name, file, expr, funcs := parts[0], parts[1], parts[2], strings.Split(parts[3], ";")
+		hit := false
+		for _, f := range funcs {
+			if inProp[f] {
+				hit = true
+			}
+		}
+		if !hit {
+			continue
+		}
+		tmp, err := os.MkdirTemp("", "gowp-mut")
+		if err != nil {
+			skipped = append(skipped, name+": "+err.Error())
+			continue
+		}
+		func() {
+			defer os.RemoveAll(tmp)
+			dst := filepath.Join(tmp, "repo")
+			if out, err := exec.Command("rsync", "-a", "--exclude", ".git", repo+"/", dst+"/").CombinedOutput(); err != nil {
+				skipped = append(skipped, name+": rsync: "+string(out))
+				return
+			}
+			if out, err := exec.Command("sed", "-i", expr, filepath.Join(dst, file)).CombinedOutput(); err != nil {
+				skipped = append(skipped, name+": sed: "+string(out))
+				return
+			}
+			MP, err := loadAll(dst, verif)
+			if err != nil {
+				killed = append(killed, name+" (does not load: counted as detected)")
+				return
+			}
+			dead := false
+			var obls []*Obligation
+			for _, f := range funcs {
+				k := f
+				if !strings.Contains(k, ":") {
+					k = ":" + k
+				}
+				r := MP.verifyFunc(k, false)
+				if r.OutOfSub != "" {
+					dead = true
+				}
+				obls = append(obls, r.Obls...)
+			}
+			if !dead {
+				solveAll(MP, obls, 8000, false, 3)
+				for _, o := range obls {
+					if !o.Cover && o.Result != nil && o.Result.Verdict != "unsat" {
+						dead = true
+					}
+				}
+			}
+			if dead {
+				killed = append(killed, name)
+			} else {
+				survived = append(survived, name)
+			}
+		}()
+	}
+	sort.Strings(killed)
+	sort.Strings(survived)
+	for _, sname := range survived {
+		fmt.Printf("SENSITIVITY: mutant %s is not detected by the contracts of this property\n", sname)
+	}
+	return map[string]interface{}{"mutants_run": len(killed) + len(survived), "killed": killed, "survived": survived, "skipped": skipped,
+		"rule": "single-line mutants from selftest/mutants.txt whose target functions are checked for this property; killed = some obligation of the target functions no longer discharges"}
+}
